@@ -26,7 +26,7 @@ ASSUMPTIONS = ["one case in four enters dimensionless size ratios below their de
                "rtol 1e-7 (conforming models agree to 1e-10..1e-15, offenders are off by 1e-2..0.9)"]
 REQUIRED_MONITORS = ["length_scaling_I", "length_scaling_Fq", "sld_scaling"]
 REQUIRED_BUCKETS = {"quick": ["pd:on", "pd:off", "mode>0", "dim:2d", "mesh>100:mode>0", "dist:lognormal", "dist:schulz", "dist:gaussian", "magnetic", "dist:rectangle", "dist:uniform",
-                              "reparameterised:typed", "reparameterised:untyped"]}
+                              "reparameterised:typed", "reparameterised:untyped", "magnetic:vector-sld-elements"]}
 REQUIRED_BUCKETS["thorough"] = REQUIRED_BUCKETS["quick"]
 
 UNIT_EXP = {"Ang": 1, "Ang^2": 2, "Ang^3": 3, "1/Ang": -1, "1/Ang^2": -2, "1/Ang^3": -3, "Ang^-1": -1, "Ang^-2": -2}
@@ -214,6 +214,14 @@ def run_case(case, rec):
         if slds:
             pars[slds[0] + "_M0"] = float(rng.uniform(0.5, 4.0))
             pars[slds[0] + "_mtheta"], pars[slds[0] + "_mphi"] = float(rng.uniform(-80, 80)), float(rng.uniform(-170, 170))
+            # models with a vector of SLDs: magnetisation also on another element, and on the last declared element
+            # whether or not the shell count makes it part of the particle
+            allsld = [p_.name for p_ in i.parameters.call_parameters if p_.type == "sld"]
+            if len(allsld) > len(slds) or any(n_[-1].isdigit() for n_ in allsld):
+                for n_ in {allsld[-1], slds[-1], slds[int(rng.integers(len(slds)))]}:
+                    pars[n_ + "_M0"] = float(rng.uniform(0.5, 4.0))
+                    pars[n_ + "_mtheta"], pars[n_ + "_mphi"] = float(rng.uniform(-80, 80)), float(rng.uniform(-170, 170))
+                rec.bucket("magnetic:vector-sld-elements")
             for s_ in slds[1:]:
                 pars[s_ + "_mtheta"], pars[s_ + "_mphi"] = float(rng.uniform(-80, 80)), float(rng.uniform(-170, 170))
             pars.update(up_frac_i=float(rng.uniform(0, 1)), up_frac_f=float(rng.uniform(0, 1)),
